@@ -1,7 +1,10 @@
 #!/bin/sh
 # Run the pinned baseline suite (guard off) and compare with BASELINE.json stable_pass. usage: run_suite.sh [junit-out]
 OUT=${1:-/tmp/suite.junit.xml}
+BEFORE=$(cd /repo && ls tmp*.spc 2>/dev/null | sort)
 cd /repo && env -u IRISPIE_VERIF /venv/bin/python -m pytest -ra -q -p no:cacheprovider --timeout=900 --continue-on-collection-errors --junitxml=$OUT > ${OUT%.xml}.log 2>&1
+# the x13 tests leave tmp*.spc files in the working directory: remove the ones this run created
+for f in $(cd /repo && ls tmp*.spc 2>/dev/null | sort); do echo "$BEFORE" | grep -qx "$f" || rm -f "/repo/$f"; done
 python3 - "$OUT" <<'PY'
 import json, sys, xml.etree.ElementTree as ET
 base = set(json.load(open('/root/.vp/BASELINE.json'))['stable_pass'])
